@@ -57,6 +57,17 @@ def build_fc(decls):
     if key in _FC_CACHE:
         return _FC_CACHE[key]
     fc = ast.FileContents()
+    add_decls(fc, decls)
+    if len(_FC_CACHE) > 2000:
+        _FC_CACHE.clear()
+    _FC_CACHE[key] = fc
+    return fc
+
+
+def add_decls(fc, decls):
+    """Append declarations to an existing FileContents (its public list fields)."""
+    from dznpy import ast
+    from dznpy.scoping import NamespaceIds, NamespaceTree
     for kind, fqn in decls:
         tree = NamespaceTree()
         for part in fqn[:-1]:
@@ -81,10 +92,6 @@ def build_fc(decls):
         # decoys that must never be returned
         fc.imports.append(ast.Import('.'.join(fqn)))
         fc.filenames.append(ast.Filename(fqn[-1]))
-    if len(_FC_CACHE) > 2000:
-        _FC_CACHE.clear()
-    _FC_CACHE[key] = fc
-    return fc
 
 
 def kind_of(obj):
@@ -107,6 +114,61 @@ def check_lookup_universe(case):
                    'lookup-set')
     if scope_arg is not None and scope_arg.items != list(scope):
         raise Fail('find_fqn modified the calling scope argument', 'mutates-scope')
+
+
+def check_lookup_growing(case):
+    """Look-ups answer for the declarations the FileContents holds *at the time of the call*: the
+    same object is looked at, extended through its public list fields (as when a second document is
+    merged in), looked at again, reduced, looked at again."""
+    from dznpy import ast
+    from dznpy.ast_view import find_any, find_fqn
+    from dznpy.scoping import NamespaceIds
+    fc = ast.FileContents()
+    have = []
+
+    def look(stage):
+        for name, scope in case['queries']:
+            res = find_fqn(fc, NamespaceIds(list(name)), NamespaceIds(list(scope)))
+            chain = {tuple(c) for c in resolution_order(name, scope)}
+            want = sorted((k, tuple(f)) for k, f in have if tuple(f) in chain)
+            got = sorted((kind_of(o), tuple(o.fqn.items)) for o in res.items)
+            if got != want:
+                raise Fail(f'{stage}: find_fqn({name}, from {scope}) returned {got}, the contents '
+                           f'hold {want} on the chain', 'lookup-after-change')
+            tail = list(name)
+            res = find_any(fc, NamespaceIds(tail))
+            want = sorted((k, tuple(f)) for k, f in have if list(f[-len(tail):]) == tail)
+            got = sorted((kind_of(o), tuple(o.fqn.items)) for o in res.items)
+            if got != want:
+                raise Fail(f'{stage}: find_any({tail}) returned {got}, the contents hold {want}',
+                           'suffix-after-change')
+    for i, step in enumerate(case['steps']):
+        if step[0] == 'add':
+            decls = [(k, list(f)) for k, f in step[1]]
+            add_decls(fc, decls)
+            have += decls
+        else:  # drop the n-th declaration of its kind list
+            if not have:
+                continue
+            k, f = have.pop(step[1] % len(have))
+            lst = getattr(fc, {'component': 'components', 'foreign': 'foreigns', 'system': 'systems',
+                               'enum': 'enums', 'subint': 'subints', 'extern': 'externs',
+                               'interface': 'interfaces'}[k])
+            for j, o in enumerate(lst):
+                if list(o.fqn.items) == list(f):
+                    del lst[j]
+                    break
+        look(f'after step {i + 1} ({step[0]})')
+
+
+_SMALL = [list(t) for n in (1, 2, 3) for t in itertools.product(['a', 'b'], repeat=n)]
+growing_case = st.fixed_dictionaries({
+    'steps': st.lists(st.one_of(
+        st.tuples(st.just('add'), st.lists(st.tuples(st.sampled_from(KINDS), st.sampled_from(_SMALL)),
+                                           min_size=1, max_size=4)),
+        st.tuples(st.just('drop'), st.integers(0, 7))), min_size=2, max_size=5),
+    'queries': st.lists(st.tuples(st.sampled_from(_SMALL[:6]), st.sampled_from([[]] + _SMALL)),
+                        min_size=1, max_size=4)})
 
 
 def universe_cases(ctx):
@@ -386,6 +448,10 @@ def run(ctx):
     n = ctx.n(1200, 60000)
     ctx.clause('lookup_parsed', parsed_case(), check_lookup_parsed, n, nontrivial=nt_parsed,
                labels=lambda c: ['parsed', f'name-ids={len(c["name"])}'])
+    ctx.clause('lookup_growing', growing_case, check_lookup_growing, ctx.n(600, 30000),
+               nontrivial=lambda c: sum(1 for s in c['steps'] if s[0] == 'add') >= 2,
+               labels=lambda c: ['growing', 'with-drop' if any(s[0] == 'drop' for s in c['steps'])
+                                 else 'add-only'])
     idl = st.lists(st.sampled_from(['a', 'b', 'c', 'My', 'x_1', '_']), max_size=5)
     ctx.clause('resolution_order', st.fixed_dictionaries({
         'name': idl, 'scope': st.one_of(st.none(), idl)}), check_resolution_order,
